@@ -107,6 +107,22 @@ def gen(rng, tier):
             for i in sorted({0, n // 2, n}):
                 cs.append(Case(line(rng, "generichash_obj", keylen, pre, [msg[:i], msg[i:]]), cls="generichash_obj/key-len-ne-out-len"))
     # incremental verification = one-shot verification (HMAC and Poly1305 object verifiers, incl. a tag at the head of a longer Vec)
+    # incremental verification with a tag container shorter than a tag: what the one-shot verification does with it (never accepts)
+    for n in (0, 16, 40):
+        key, msg = rbytes(rng, 32), rbytes(rng, n)
+        mac = refs.poly1305(key, msg)
+        body = "%s %s" % (hx(msg[:n // 2]), hx(msg[n // 2:]))
+        cs.append(Case("poly1305_objverify %s %s %s" % (hx(key), hx(mac), body), cls="poly1305_objverify/good", expect="ok"))
+        for k in range(0, 16):
+            cs.append(Case("poly1305_objverify %s %s %s" % (hx(key), hx(mac[:k]), body), cls="poly1305_objverify/short-prefix", expect=(lambda a: not a.startswith("ok")),
+                           meta={"why": "a %d-byte prefix of the correct tag was accepted by the incremental verifier" % k, "panic_ok": True}))
+    # a key that is present but EMPTY (`Some(&[])`, an empty Vec): one answer from the one-shot and every incremental / object form
+    for outlen in (16, 32, 32, 64):
+        for n in (0, 1, 64, 128, 129, 200):
+            msg = rbytes(rng, n)
+            cut = n // 3
+            cs.append(Case("generichash_emptykey %d %s %s" % (outlen, hx(msg[:cut]), hx(msg[cut:])), cls="generichash/empty-key", meta={"no_sodium": True, "no_spec": True}))
+
     for n in (0, 1, 31, 32, 33, 100):
         key, msg = rbytes(rng, 32), rbytes(rng, n)
         cs.append(Case("auth_verify %s %s %s" % (hx(key), hx(msg), hx(refs.hmac512256(key, msg))), cls="auth_verify/incremental-vs-oneshot", expect="ok"))
